@@ -8,6 +8,7 @@ import (
 	"go/token"
 	"go/types"
 	"math"
+	"reflect"
 	"unicode/utf8"
 	"unsafe"
 
@@ -785,9 +786,11 @@ func (fr *frame) equals(t types.Type, x, y value) value {
 	case string, *symstr:
 		return fr.strBinop(token.EQL, x, y)
 	case *value:
-		if sp, ok := y.(*symptr); ok {
-			_ = sp
+		switch y := y.(type) {
+		case *symptr:
 			return false
+		case native:
+			return x == nil && nativeIsNil(y)
 		}
 		return x == y.(*value)
 	case *symptr:
@@ -797,7 +800,16 @@ func (fr *frame) equals(t types.Type, x, y value) value {
 	case *chanStub:
 		return x == y.(*chanStub)
 	case native:
-		return x.v == y.(native).v
+		switch y := y.(type) {
+		case *value:
+			return y == nil && nativeIsNil(x)
+		case native:
+			if nativeIsNil(x) || nativeIsNil(y) {
+				return nativeIsNil(x) && nativeIsNil(y)
+			}
+			return x.v == y.v
+		}
+		return false
 	case structure:
 		y := y.(structure)
 		tStruct := t.Underlying().(*types.Struct)
@@ -1459,4 +1471,16 @@ func checkInterface(itype *types.Interface, x iface) string {
 			x.t, itype, meth.Name())
 	}
 	return "" // ok
+}
+
+func nativeIsNil(n native) bool {
+	if n.v == nil {
+		return true
+	}
+	rv := reflect.ValueOf(n.v)
+	switch rv.Kind() {
+	case reflect.Ptr, reflect.Map, reflect.Slice, reflect.Func, reflect.Interface, reflect.Chan:
+		return rv.IsNil()
+	}
+	return false
 }
